@@ -449,23 +449,24 @@ fn main() {
                 let c = match rng.gen_range(0..30) {
                     0 | 1 => call("mkfile", &a, ""),
                     2 | 3 | 4 => call("mkdir_p", &a, ""),
-                    5 => call_m("mkdir_m", &a, [0o700, 0o755, 0o750][rng.gen_range(0..3)], 0),
-                    6 => call_m("mkfile_m", &a, [0o600, 0o644, 0o755][rng.gen_range(0..3)], 0),
+                    5 => call_m("mkdir_m", &a, [0o700, 0o755, 0o750, 0o1770][rng.gen_range(0..4)], 0),
+                    6 => call_m("mkfile_m", &a, [0o600, 0o644, 0o755, 0o444][rng.gen_range(0..4)], 0),
                     7 | 8 => call_d("write_all", &a, data),
                     9 | 10 => call_d("append_all", &a, data),
                     11 => call_ls("write_lines", &a, &["one", "", "two"]),
                     12 => call("remove", &a, ""),
                     13 => call("remove_all", &a, ""),
-                    14 => call_m("chmod", &a, [0o755, 0o700, 0o644, 0o600][rng.gen_range(0..4)], 0),
+                    14 => call_m("chmod", &a, [0o755, 0o700, 0o644, 0o600, 0o444, 0o500, 0o1777][rng.gen_range(0..7)], 0),
                     15 => call_b("chmod_b", &a, "", 0, 0, ["f:u+x", "a:go-w", "d:a=rx,f:a=r"][rng.gen_range(0..3)], ["s", "sR"][rng.gen_range(0..2)]),
                     16 | 17 => call("move_p", &a, &b),
-                    18 | 19 => call("copy", &a, &b),
+                    18 => call("copy", &a, &b),
+                    19 => call_b("copy_b", &a, &b, [0o700, 0o640, 0o1770][rng.gen_range(0..3)], 0, "", ["a", "d", "f"][rng.gen_range(0..3)]),
                     20 | 21 => call("symlink", &a, &b),
                     _ => call(["exists", "is_dir", "is_file", "is_symlink", "is_symlink_dir", "is_symlink_file", "mode", "read_all", "read_lines", "readlink", "readlink_abs",
                                "paths", "all_paths", "all_files", "entry", "is_exec", "is_readonly"][rng.gen_range(0..17)], &a, ""),
                 };
                 // never the sandbox root as a mutation source / target (it is not a filesystem root)
-                let is_query = !["mkfile", "mkdir_p", "mkdir_m", "mkfile_m", "write_all", "append_all", "write_lines", "remove", "remove_all", "chmod", "chmod_b", "move_p", "copy", "symlink"].contains(&c["op"].as_str().unwrap());
+                let is_query = !["mkfile", "mkdir_p", "mkdir_m", "mkfile_m", "write_all", "append_all", "write_lines", "remove", "remove_all", "chmod", "chmod_b", "move_p", "copy", "copy_b", "symlink"].contains(&c["op"].as_str().unwrap());
                 if !is_query && (a == "/" || (["move_p", "copy", "symlink"].contains(&c["op"].as_str().unwrap()) && b == "/" && c["op"] == "symlink")) {
                     continue;
                 }
